@@ -166,6 +166,10 @@ func ItemCollectionDeduplication(recCols ...*ItemCollection) ItemCollection {
 			} else {
 				continue
 			}
+			if len(testIt) == 0 {
+				// an entry without an id can not be a duplicate of anything
+				continue
+			}
 			for _, it := range rec {
 				if testIt.Equals(it.GetID(), false) {
 					// mark the element for removal
